@@ -15,6 +15,7 @@ import (
 	"strconv"
 	"strings"
 	"testing"
+	"time"
 
 	"github.com/go-text/typesetting/font"
 	"github.com/go-text/typesetting/font/cff"
@@ -27,7 +28,10 @@ import (
 
 func TestMain(m *testing.M) { ev.Main(m) }
 
-const checkName = "mutant"
+const (
+	checkName   = "mutant"
+	costUnitKiB = 1024 // fonts whose unmutated run allocates more get proportionally fewer mutants
+)
 
 func envInt(name string, def int) int {
 	if s := os.Getenv(name); s != "" {
@@ -347,9 +351,29 @@ func TestPropInject(t *testing.T) {
 			t.Fatalf("reading %s: %v", f.Rel, err)
 		}
 		frnd := ev.NewRand(uint64(ev.Seed())<<20 ^ uint64(i)*0x9E3779B97F4A7C15 ^ uint64(len(data)))
+		// the cost of one case on this font is estimated by the bytes the unmutated font makes
+		// the program allocate (deterministic, unlike time): expensive fonts (multi-megabyte
+		// files, fonts whose state machines run to the operation limit) get fewer mutants
+		base := runData(data)
+		if base.Finding != nil {
+			co.add(Case{Font: f.Rel}, base.Finding)
+			continue
+		}
 		budget := perFont
-		if f.Size > 1<<20 {
-			budget = perFont / 8 // multi-megabyte files: each case costs tens of milliseconds
+		switch kib := base.Alloc >> 10; {
+		case kib < 256:
+			ev.Label("base_alloc<256K")
+		case kib < 1024:
+			ev.Label("base_alloc<1M")
+		default:
+			ev.Label("base_alloc>=1M")
+		}
+		if cost := int(base.Alloc >> 10); cost > costUnitKiB {
+			budget = perFont * costUnitKiB / cost
+			if budget < 40 {
+				budget = 40
+			}
+			ev.Label("font_budget_reduced")
 		}
 		all := enumerate(data, l, frnd, nRandomPos)
 		byCat := map[string][]mutant{}
@@ -380,12 +404,16 @@ func TestPropInject(t *testing.T) {
 				}
 			}
 		}
+		t0 := time.Now()
 		for _, m := range chosen {
 			if co.stopped {
 				break
 			}
 			c := Case{Font: f.Rel, Edits: m.Edits, Note: m.Note}
 			co.add(c, evaluate(c, m.Cat))
+		}
+		if d := time.Since(t0); d > 5*time.Second {
+			ev.Note("slow font: %s (%d bytes): %d mutants in %.1fs", f.Rel, f.Size, len(chosen), d.Seconds())
 		}
 	}
 	co.finish()
